@@ -1,5 +1,5 @@
 (* Properties/C02.v — Retry: bounded attempts, stops at first success or abort, correct final result. *)
-From FS Require Import Model.Exec Proofs.ExecProofs Corr.C02.
+From FS Require Import Model.Exec Proofs.ExecProofs Proofs.ExecRetryBudget Corr.C02.
 
 (* for an arbitrary wrapped layer that does not touch this retry layer's own per-execution ledger:
    the layer invokes what it wraps at most maxRetries + 1 times per execution (the ghost counter
@@ -55,3 +55,24 @@ Theorem C02_retry_budget_is_per_execution : forall now ext key b l k c script po
   get_rstate (fresh_world now ext key b l k c script) pos = {| rs_failed := 0; rs_exceeded := false |}.
 Proof. exact retry_budget_is_per_execution. Qed.
 Print Assumptions C02_retry_budget_is_per_execution.
+
+(* over whole executions: in the complete log of any execution through any stack (any script, any cancellation, any instances),
+   the retry policy at position p0 -- whatever policies are around it and re-enter it, whatever policies are inside it --
+   starts at most maxRetries retries: the number of its OnRetry events is within its bound *)
+Theorem C02_retries_within_budget_in_any_stack : forall fuel stack now ext key b l k c script p0 cfg0,
+  nth_error stack p0 = Some (PRetry cfg0) -> 0 <= r_max_retries cfg0 ->
+  Z.of_nat (length (filter (fun e => kind_is KRetry e && Nat.eqb (e_pos e) p0)
+                           (w_trace (drain (snd (execute fuel stack (fresh_world now ext key b l k c script)))))))
+  <= r_max_retries cfg0.
+Proof. exact retries_within_budget. Qed.
+Print Assumptions C02_retries_within_budget_in_any_stack.
+
+(* used by the correspondence: the executable form (retries_bounded, evaluated on the implementation's logs) accepts every
+   model log, whichever completion and breaker listeners are registered *)
+Theorem C02_retries_checker_accepts_model : forall fuel stack now ext key b l k c script lsn mask q o,
+  q_stack q = stack ->
+  x_events o = filter (blsn_keeps mask) (filter (lsn_keeps lsn)
+     (rev (w_trace (drain (snd (execute fuel stack (fresh_world now ext key b l k c script))))))) ->
+  retries_bounded q o = true.
+Proof. exact retries_checker_accepts_model. Qed.
+Print Assumptions C02_retries_checker_accepts_model.
